@@ -59,7 +59,7 @@ theorem fieldsGo_printable (X cur : Bytes) (hX : printable X = true) : fieldsGo 
       rw [fieldsGo_space, af]
       simp [ih']
     · have hge : 0x21 ≤ b.toNat := by
-        have : b.toNat ≠ 0x20 := fun e => hb (by cases b; simp_all [UInt8.toNat]; exact UInt8.eq_of_toNat_eq (by simpa using e))
+        have : b.toNat ≠ 0x20 := fun e => hb (UInt8.toNat.inj (by simpa using e))
         omega
       rw [fieldsGo, af]
       simp [spaceWidth_printable b rest hge hX.1.2, hb, ih']
@@ -200,14 +200,9 @@ theorem pieces (v : Bytes) :
         cases v with
         | nil => simp [hasDoubleSpace]
         | cons c t =>
-          by_cases hc : c = 0x20
-          · subst hc; simp [hasDoubleSpace] at hds
-          · simp only [hasDoubleSpace] at hds
-            refine ⟨?_, by simpa using hc⟩
-            have : hasDoubleSpace (0x20 :: c :: t) = hasDoubleSpace (c :: t) := by
-              rw [hasDoubleSpace]
-              · intro h; injection h with _ h; injection h with h _; exact hc h
-            rw [← this]; exact hds
+          simp only [hasDoubleSpace, Bool.or_eq_false_iff, Bool.and_eq_false_imp, beq_iff_eq] at hds
+          have hc : c ≠ 0x20 := by simpa using hds.1
+          exact ⟨hds.2, by simpa using hc⟩
       obtain ⟨init, last, haf, hinit, hlst, hjoin⟩ :=
         ih [] hascv hdsv.1 hlastv' (fun _ => hdsv.2) (fun _ => by simp) (Or.inl (fun h => by simp at h))
       have he : escapeRune (0x20 : UInt8).toNat = [0x20] := escape_space
@@ -235,7 +230,7 @@ theorem pieces (v : Bytes) :
     · -- an escape without spaces: it extends the current piece
       have hbn : b.toNat ≠ 0x20 := by
         intro e; apply hb
-        exact UInt8.eq_of_toNat_eq (by simpa using e)
+        exact UInt8.toNat.inj (by simpa using e)
       have hns := hnosp hbn
       rw [af_nospace _ _ _ hns]
       have hcur' : (escapeRune b.toNat).reverse ++ cur ≠ [] ∧ (escapeRune b.toNat).reverse ++ cur ≠ [0x22] := by
@@ -289,16 +284,14 @@ theorem pieces (v : Bytes) :
         have hb5 := hbs hl
         subst hv
         apply hlast
-        have : b = 0x5C := UInt8.eq_of_toNat_eq (by simpa using hb5)
+        have : b = 0x5C := UInt8.toNat.inj (by simpa using hb5)
         rw [this]; rfl
       have hdsv : hasDoubleSpace v = false := by
         cases v with
         | nil => rfl
         | cons c t =>
-          have : hasDoubleSpace (b :: c :: t) = hasDoubleSpace (c :: t) := by
-            rw [hasDoubleSpace]
-            · intro h; injection h with h _; exact hb h
-          rw [← this]; exact hds
+          simp only [hasDoubleSpace, Bool.or_eq_false_iff] at hds
+          exact hds.2
       obtain ⟨init, last, haf, hinit, hlst, hjoin⟩ :=
         ih _ hascv hdsv hlastv'
           (fun h => by rcases h with h | h; exact absurd h hcur'.1; exact absurd h hcur'.2)
@@ -306,5 +299,219 @@ theorem pieces (v : Bytes) :
       refine ⟨init, last, haf, hinit, hlst, ?_⟩
       rw [hjoin]
       simp
+
+/-! ### one quoted value -/
+
+theorem af_nonempty (X : Bytes) : ∀ cur, ∀ p ∈ af X cur, p ≠ [] := by
+  induction X with
+  | nil =>
+    intro cur p hp
+    simp only [af] at hp
+    cases cur with
+    | nil => simp at hp
+    | cons c t => simp at hp; rw [hp]; simp
+  | cons b rest ih =>
+    intro cur p hp
+    simp only [af] at hp
+    split at hp
+    · simp only [List.mem_append] at hp
+      rcases hp with hp | hp
+      · cases cur with
+        | nil => simp at hp
+        | cons c t => simp at hp; rw [hp]; simp
+      · exact ih [] p hp
+    · exact ih _ p hp
+
+theorem quoteGo_printable (v : Bytes) (hv : isAscii v = true) : printable (quoteGo v 0) = true := by
+  induction v with
+  | nil => rfl
+  | cons b v ih =>
+    simp only [isAscii, List.all_cons, Bool.and_eq_true, decide_eq_true_eq] at hv
+    rw [quoteGo_ascii_cons b v hv.1]
+    have h1 := (ascii_escapes2 b.toNat hv.1).1
+    have h2 := ih (by simpa [isAscii] using hv.2)
+    simp only [printable, List.all_append, Bool.and_eq_true] at h1 h2 ⊢
+    exact ⟨h1, h2⟩
+
+/-- the deptest parser reads a well-formed quoted ASCII value back. -/
+theorem joinQuoted_quote (v : Bytes) (hv : isAscii v = true) (hok : depQuotedOK v = true) :
+    joinQuoted false none (fields (quote v)) = .ok [v] := by
+  simp only [depQuotedOK, Bool.and_eq_true, bne_iff_ne, ne_eq, Bool.not_eq_eq_eq_not, Bool.not_true] at hok
+  obtain ⟨⟨hlast, hhead⟩, hds⟩ := hok
+  have hpr : printable (quote v) = true := by
+    have := quoteGo_printable v hv
+    simp only [printable, quote, List.all_cons, List.all_append, Bool.and_eq_true] at this ⊢
+    exact ⟨by decide, this, by decide⟩
+  have hf : fields (quote v) = af (quoteGo v 0 ++ [0x22]) [0x22] := by
+    unfold fields
+    rw [fieldsGo_printable _ _ hpr]
+    simp [quote, af]
+  obtain ⟨init, last, haf, hinit, hlst, hjoin⟩ :=
+    pieces v [0x22] hv hds hlast (fun _ => hhead) (fun _ => by simp) (Or.inr rfl)
+  rw [hf, haf]
+  -- the first piece starts with the opening quote
+  have hne : ∀ p ∈ init ++ [last], p ≠ [] := by
+    intro p hp; rw [← haf] at hp; exact af_nonempty _ _ p hp
+  cases hil : init ++ [last] with
+  | nil => simp at hil
+  | cons p1 rest =>
+    have hp1 : p1.head? = some 0x22 := by
+      have h1 := hne p1 (by rw [hil]; simp)
+      have hj := hjoin
+      rw [hil] at hj
+      cases p1 with
+      | nil => exact absurd rfl h1
+      | cons c t =>
+        cases rest with
+        | nil => simp [join] at hj; simp [hj.1]
+        | cons r rs => simp [join] at hj; simp [hj.1]
+    rw [joinQuoted_start p1 rest hp1, ← hil, joinQuoted_run init last false [] hinit hlst]
+    have : join [0x20] ([] ++ init ++ [last]) = quote v := by
+      simp only [List.nil_append, hjoin]; simp [quote]
+    rw [this, unquote_quote v hv]
+
+/-! ### all items -/
+
+/-- the token the parser ends up with for an item: the value itself for a quoted item. -/
+def itemTok (it : Bytes × Option Bytes) : Bytes :=
+  match it.2 with
+  | some v => v
+  | none => it.1
+
+theorem fields_cons_join (t : Bytes) (r1 : Bytes) (rs : List Bytes) (ht : plainTok t = true) :
+    fields (join [0x20] (t :: r1 :: rs)) = t :: fields (join [0x20] (r1 :: rs)) := by
+  simp only [plainTok, Bool.and_eq_true, Bool.not_eq_eq_eq_not, Bool.not_true] at ht
+  unfold fields
+  simp only [join]
+  have : t ++ [0x20] ++ join [0x20] (r1 :: rs) = t ++ 0x20 :: join [0x20] (r1 :: rs) := by simp
+  rw [this, fieldsGo_token t _ [] ht.2, fieldsGo_space]
+  cases t with
+  | nil => simp at ht
+  | cons b t' => simp
+
+theorem items_parse (its : List (Bytes × Option Bytes)) (hq : quotedItemsOK its = true)
+    (hplain : ∀ it ∈ its, it.2 = none → plainTok it.1 = true ∧ it.1.head? ≠ some 0x22)
+    (hquoted : ∀ it ∈ its, ∀ v, it.2 = some v → it.1 = quote v ∧ isAscii v = true) :
+    joinQuoted false none (fields (join [0x20] (its.map (·.1)))) = .ok (its.map itemTok) := by
+  induction its with
+  | nil => simp [join, fields, fieldsGo, joinQuoted]
+  | cons it rest ih =>
+    obtain ⟨t, q⟩ := it
+    cases q with
+    | some v =>
+      cases rest with
+      | nil =>
+        simp only [quotedItemsOK] at hq
+        obtain ⟨e, hv⟩ := hquoted (t, some v) (by simp) v rfl
+        simp only at e
+        subst e
+        simp only [List.map_cons, List.map_nil, join, itemTok]
+        exact joinQuoted_quote v hv hq
+      | cons r rs => simp [quotedItemsOK] at hq
+    | none =>
+      simp only [quotedItemsOK] at hq
+      obtain ⟨hpt, hph⟩ := hplain (t, none) (by simp) rfl
+      simp only at hpt hph
+      have ih' := ih hq (fun it hit => hplain it (by simp [hit])) (fun it hit => hquoted it (by simp [hit]))
+      have hbne : (t.head? != some 0x22) = true := by simpa using hph
+      cases rest with
+      | nil =>
+        simp only [List.map_cons, List.map_nil, join, itemTok]
+        rw [show t = join [0x20] [t] from rfl, fields_join [t] (by simpa using hpt)]
+        exact joinQuoted_plain [t] (by simpa using hph)
+      | cons r rs =>
+        simp only [List.map_cons] at ih' ⊢
+        rw [fields_cons_join t _ _ hpt, joinQuoted]
+        simp only [hbne, if_true, ih', itemTok]
+
+/-- the tokens the parser ends up with are, key by key, the name and the value. -/
+theorem depItems_toks (h : Heap) (s : Set) :
+    (depItems h s).map itemTok = C19AttrKeys.depAllKeys.flatMap (chunk C19AttrKeys.depFlagKeys depName h s) := by
+  rw [depItems_eq, List.map_flatMap]
+  apply flatMap_congr'
+  intro key _
+  simp only [depItemsOf, chunk, depName]
+  cases hg : getAttrW h s key with
+  | none => rfl
+  | some v =>
+    by_cases hf : key ∈ C19AttrKeys.depFlagKeys
+    · simp [hf, itemTok]
+    · by_cases hn : depNeedsQuote v = true
+      · simp [hf, hn, itemTok]
+      · simp [hf, hn, itemTok]
+
+theorem depItems_facts (h : Heap) (s : Set) :
+    (∀ it ∈ depItems h s, it.2 = none → plainTok it.1 = true ∧ it.1.head? ≠ some 0x22) ∧
+    (∀ it ∈ depItems h s, ∀ v, it.2 = some v → it.1 = quote v) := by
+  constructor
+  · intro it hit hnone
+    rw [depItems_eq, List.mem_flatMap] at hit
+    obtain ⟨key, hkey, hit⟩ := hit
+    simp only [depItemsOf] at hit
+    cases hg : getAttrW h s key with
+    | none => simp [hg] at hit
+    | some v =>
+      simp only [hg, List.singleton_append, List.mem_cons] at hit
+      rcases hit with e | hit
+      · rw [e]; exact dep_names_plain key hkey
+      · by_cases hf : key ∈ C19AttrKeys.depFlagKeys
+        · simp [hf] at hit
+        · by_cases hn : depNeedsQuote v = true
+          · simp [hf, hn] at hit; rw [hit] at hnone; simp at hnone
+          · simp only [hf, hn] at hit
+            simp only [List.contains_iff_mem, hf, Bool.false_eq_true, if_false, List.mem_singleton] at hit
+            rw [hit]
+            have hn' : depNeedsQuote v = false := by simpa using hn
+            simp only [depNeedsQuote, Bool.or_eq_false_iff, beq_eq_false_iff_ne, ne_eq] at hn'
+            exact ⟨by simp [plainTok, hn'.1.1, hn'.2], hn'.1.2⟩
+  · intro it hit v hsome
+    rw [depItems_eq, List.mem_flatMap] at hit
+    obtain ⟨key, _, hit⟩ := hit
+    simp only [depItemsOf] at hit
+    cases hg : getAttrW h s key with
+    | none => simp [hg] at hit
+    | some w =>
+      simp only [hg, List.singleton_append, List.mem_cons] at hit
+      rcases hit with e | hit
+      · rw [e] at hsome; simp at hsome
+      · by_cases hf : key ∈ C19AttrKeys.depFlagKeys
+        · simp [hf] at hit
+        · by_cases hn : depNeedsQuote w = true
+          · simp [hf, hn] at hit
+            rw [hit] at hsome ⊢
+            simp at hsome
+            rw [hsome]
+          · simp [hf, hn] at hit
+            rw [hit] at hsome; simp at hsome
+
+/-- `deptest.ParseString(write(t))` equals `t` when every value that must be quoted is
+the last item written, is `depQuotedOK` and is an ASCII string. -/
+theorem dep_roundtrip_quoted (h : Heap) (s : Set) (hs : SetOK h s)
+    (hk : knownKeys C19AttrKeys.depAllKeys C19AttrKeys.depFlagKeys h s = true)
+    (ht : depTextOK h s = true) (ha : depQuotedAscii h s = true) :
+    ∃ h' s', depParseString h (depWrite h s) = .ok (h', s') ∧
+      SetOK h' s ∧ SetOK h' s' ∧ s.attrs h' = s.attrs h ∧ Attr.compare h' s s' = .eq := by
+  obtain ⟨hf1, hf2⟩ := depItems_facts h s
+  have hquoted : ∀ it ∈ depItems h s, ∀ v, it.2 = some v → it.1 = quote v ∧ isAscii v = true := by
+    intro it hit v hv
+    refine ⟨hf2 it hit v hv, ?_⟩
+    have := (List.all_eq_true.mp ha) it hit
+    simpa [hv] using this
+  have hj : joinQuoted false none (fields (depWrite h s)) =
+      .ok (C19AttrKeys.depAllKeys.flatMap (chunk C19AttrKeys.depFlagKeys depName h s)) := by
+    unfold depWrite
+    rw [items_parse (depItems h s) ht hf1 hquoted, depItems_toks]
+  have hpi := parseItems_chunks C19AttrKeys.depNames C19AttrKeys.depAllKeys C19AttrKeys.depFlagKeys
+    depName h s C19AttrKeys.depAllKeys dep_lookup
+  have hmask : maskOfKeys s.mask C19AttrKeys.depAllKeys 0 = s.mask := by
+    simp only [knownKeys, Bool.and_eq_true] at hk
+    exact dep_mask_ok s.mask hk.1
+  obtain ⟨h', s', he, hs', hok, hattrs, hsame⟩ :=
+    calls_same C19AttrKeys.depAllKeys C19AttrKeys.depFlagKeys h s hs hk hmask dep_keys_lt
+  refine ⟨h', s', ?_, hs', hok, hattrs, (compare_eq_iff_same h' s s' hs' hok).mpr hsame⟩
+  unfold depParseString
+  rw [hj]
+  simp only [hpi]
+  exact he
 
 end DepsDev.Proofs.C19
